@@ -161,3 +161,140 @@ func VerifH_MVCCPointReads() {
 		}
 	}
 }
+
+// verifModelReader is a KeyReader over one of the two model states: it serves the raw entries
+// (every key with a version, whatever its kind) in key order, as the tree reader does for a
+// spec without filters.
+type verifModelReader struct {
+	m   []verifKeyState
+	old bool
+	pos int
+}
+
+func (r *verifModelReader) next(lo, hi uint64, ranged bool) ([]byte, ValueRef, error) {
+	for r.pos < len(r.m) {
+		e := r.m[r.pos]
+		r.pos++
+		t, k := e.newTx, e.newKind
+		if r.old {
+			t, k = e.oldTx, e.oldKind
+		}
+		if t == 0 || (ranged && (t < lo || t > hi)) {
+			continue
+		}
+		ref, _ := verifVersionRef(t, k, nil)
+		return []byte{e.key}, ref, nil
+	}
+	return nil, nil, ErrNoMoreEntries
+}
+func (r *verifModelReader) Read(ctx context.Context) ([]byte, ValueRef, error) {
+	return r.next(0, 0, false)
+}
+func (r *verifModelReader) ReadBetween(ctx context.Context, lo, hi uint64) ([]byte, ValueRef, error) {
+	return r.next(lo, hi, true)
+}
+func (r *verifModelReader) Reset() error { r.pos = 0; return nil }
+func (r *verifModelReader) Close() error { return nil }
+
+// VerifH_MVCCRangeReads: range scans in the read set ("no phantoms"). A read-write transaction
+// scans the keys of the index through the real ongoingTxKeyReader (filters for deleted/expired
+// entries optional, `reads` calls to Read); the index then advances arbitrarily: keys are
+// updated, deleted, or INSERTED into the scanned range. The real checkPreconditions replays the
+// recorded reads on the state at commit time:
+//  * soundness - if it passes, the raw entries the scan consumed (key and version of each,
+//    and "end of range" if it got there) are the same on the commit-time state: no entry was
+//    changed, removed or inserted before the point the scan reached;
+//  * no spurious conflict - if those entries are the same, it passes.
+func VerifH_MVCCRangeReads() {
+	reads := verifrt.Param("reads")
+	fsel := verifrt.Param("filters")
+	const nkeys = 3
+	oldTs := verifrt.U64("oldTs")
+	verifrt.Assume(oldTs >= 1 && oldTs <= 4)
+	m := make([]verifKeyState, nkeys)
+	for i := range m {
+		m[i].key = byte(i + 1)
+		m[i].oldTx = verifrt.U64("oldTx")
+		m[i].oldKind = verifrt.Byte("oldKind")
+		verifrt.Assume(m[i].oldTx <= oldTs && m[i].oldKind <= 2)
+		m[i].newTx, m[i].newKind = m[i].oldTx, m[i].oldKind
+		if verifrt.Bool("touched") {
+			// a later commit wrote the key (an update, a delete, or the insertion of a new key)
+			m[i].newTx = verifrt.U64("newTx")
+			m[i].newKind = verifrt.Byte("newKind")
+			verifrt.Assume(m[i].newTx > oldTs && m[i].newTx <= oldTs+2 && m[i].newKind <= 2)
+		}
+	}
+	oldSnap, newSnap := &Snapshot{}, &Snapshot{}
+	verifrt.Stub("(*embedded/store.OngoingTx).snap", func(tx *OngoingTx, key []byte) (*Snapshot, error) {
+		if len(tx.snapshots) == 0 {
+			tx.snapshots = append(tx.snapshots, oldSnap)
+		}
+		return oldSnap, nil
+	})
+	verifrt.Stub("(*embedded/store.ImmuStore).syncSnapshot", func(s *ImmuStore, prefix []byte) (*Snapshot, error) { return newSnap, nil })
+	verifrt.Stub("(*embedded/store.Snapshot).Ts", func(s *Snapshot) uint64 { return oldTs })
+	verifrt.Stub("(*embedded/store.Snapshot).Close", func(s *Snapshot) error { return nil })
+	verifrt.Stub("(*embedded/store.Snapshot).NewKeyReader", func(s *Snapshot, spec KeyReaderSpec) (KeyReader, error) {
+		verifrt.Assert(len(spec.Filters) == 0 && spec.Offset == 0, "the raw reader is asked without filters and offset")
+		return &verifModelReader{m: m, old: s == oldSnap}, nil
+	})
+	st := &ImmuStore{inmemPrecommittedTxID: oldTs + 2, mvccReadSetLimit: 100}
+	tx := &OngoingTx{st: st, mode: ReadWriteTx, mvccReadSet: &mvccReadSet{}, entriesByKey: make(map[[32]byte]int), transientEntries: make(map[int]*EntrySpec), ts: verifNow()}
+	var filters []FilterFn
+	if fsel&1 != 0 {
+		filters = append(filters, IgnoreDeleted)
+	}
+	if fsel&2 != 0 {
+		filters = append(filters, IgnoreExpired)
+	}
+	kr, err := tx.NewKeyReader(KeyReaderSpec{Filters: filters})
+	verifrt.Assert(err == nil, "reader over the transaction's snapshot")
+	for r := 0; r < reads; r++ {
+		_, _, err := kr.Read(context.Background())
+		if err != nil {
+			verifrt.Assume(errors.Is(err, ErrNoMoreEntries))
+			break
+		}
+	}
+	// the raw entries the scan consumed, as recorded
+	consumed := 0
+	for _, rs := range tx.mvccReadSet.expectedReaders {
+		consumed += len(rs.expectedReads[0])
+	}
+	// raw sequences of both states: (key, tx) in key order, then the end marker
+	same := true
+	oi, ni := 0, 0
+	for c := 0; c < consumed; c++ {
+		for oi < nkeys && m[oi].oldTx == 0 {
+			oi++
+		}
+		for ni < nkeys && m[ni].newTx == 0 {
+			ni++
+		}
+		switch {
+		case oi == nkeys && ni == nkeys:
+		case oi == nkeys || ni == nkeys:
+			same = false
+		default:
+			if m[oi].key != m[ni].key || m[oi].oldTx != m[ni].newTx {
+				same = false
+			}
+		}
+		if oi < nkeys {
+			oi++
+		}
+		if ni < nkeys {
+			ni++
+		}
+	}
+	err = tx.checkPreconditions(context.Background(), st)
+	if err != nil {
+		verifrt.Assert(errors.Is(err, ErrTxReadConflict), "only read conflicts are reported")
+		verifrt.Assert(!same, "no spurious conflict when the scanned entries did not change")
+		verifrt.Reach("conflict")
+		return
+	}
+	verifrt.Assert(same, "validation passed: the scanned entries are the same at commit time (no phantom, no lost or changed entry)")
+	verifrt.Reach("validated")
+}
